@@ -125,6 +125,27 @@ theorem bad_files_unchanged_empty_reopen (q : BQ) (disk : List Bytes) (h : Inv q
     (openQ cfg' (DiskQueue.close q.dq).fs).fs.bad = q.dq.fs.bad :=
   ⟨empty_bad_same h, reopen_bad_same h cfg' hok hmin hmax⟩
 
+/-- (4) THE SUFFICIENT CONDITION proved for whole histories: from a fresh data path, as long as no backend
+`Put` (of `put` or of the `flush` in `Close`) rolls the writer to a new data file — the records queued on disk
+since the creation / the last `Empty` fit into one file of `--max-bytes-per-file` (`NoRoll`) — whatever
+the interleaving of puts, receives, restarts and empties, the reader never leaves the write file, NO `.bad`
+file exists, and a deletion then leaves no file of that channel at all -/
+theorem single_file_history_leaves_no_file (cfg : Cfg) (hok : CfgOk cfg) (memCap : Nat) (ops : List Op)
+    (hn : NoRoll cfg (BackedQueue.fresh memCap cfg) ops) :
+    NoBad (BackedQueue.run memCap cfg ops).q.dq.fs ∧
+    (BackedQueue.run memCap cfg ops).q.dq.rf = (BackedQueue.run memCap cfg ops).q.dq.wf ∧
+    ∀ f, ¬ onDisk (BackedQueue.delete (BackedQueue.run memCap cfg ops).q).dq.fs f := by
+  have e0 : (BackedQueue.fresh memCap cfg).q.dq = { cfg := cfg, fs := FS.empty } :=
+    (open_leftover cfg hok FS.empty (fun _ => rfl) rfl).1
+  obtain ⟨x1, x2⟩ := single_file_foldl cfg hok memCap ops (BackedQueue.fresh memCap cfg) [] [] (ledger_fresh cfg hok memCap)
+    (by rw [e0]) hn
+  obtain ⟨d, g, hl, _⟩ := ledger_run cfg hok memCap ops
+  have hb : NoBad (BackedQueue.run memCap cfg ops).q.dq.fs := by
+    intro i
+    show (ops.foldl (stepRun cfg) (BackedQueue.fresh memCap cfg)).q.dq.fs.bad i = none
+    rw [x1, e0]; rfl
+  exact ⟨hb, x2, fun f => delete_leaves_no_file_partial _ d hl.inv hb f⟩
+
 /-- both ways are reachable from a fresh data path with a queue that is healthy throughout:
 (a) `E9DiskQueue.bad_file_witness` — reader caught up, then the writer rolled (a `put` creates the file);
 (b) put a (read ahead at once), put an 8-byte record that rolls the writer, receive a — the receive creates
@@ -220,6 +241,14 @@ example : (BackedQueue.put { memCap := 0, dq := (DiskQueue.recv (DiskQueue.recv 
     ≠ (DiskQueue.recv (DiskQueue.recv (DiskQueue.put (DiskQueue.put (openQ cfgW FS.empty) ra).2 rb).2).2).2.fs.bad 0 := by decide
 -- `bad_files_change_only_take`: hypothesis satisfiable (way (b))
 example : (BackedQueue.takeDisk { memCap := 0, dq := sBad2 }).2.dq.fs.bad 0 ≠ sBad2.fs.bad 0 := by decide
+-- `single_file_history_leaves_no_file`: `NoRoll` is satisfiable by a history that overflows to disk (two
+-- records fill file 0 exactly), restarts with a record in memory (flushed to disk) and drains — and fails for the finding
+example : NoRoll cfgW (BackedQueue.fresh 1 cfgW) [.put ra, .put rb, .takeDisk, .restart, .takeDisk] :=
+  ⟨Or.inl (by decide), Or.inr (by decide), ⟨by decide, trivial⟩, trivial⟩
+example : (BackedQueue.run 1 cfgW [.put ra, .put rb, .takeDisk, .restart, .takeDisk]).taken = [rb, ra] ∧
+    (BackedQueue.run 1 cfgW [.put ra, .put rb, .takeDisk, .restart, .takeDisk]).q.dq.wp = 16 := by decide
+example : ¬ NoRoll cfgW (BackedQueue.fresh 0 cfgW) [.put ra, .put rb, .takeDisk, .takeDisk, .put rc] :=
+  fun h => absurd h.2.2.1 (by decide)
 -- `recreate_after_delete` on the finding state: the re-created channel is empty and still has the `.bad` file
 example : (openBQ 1 cfgW (BackedQueue.delete qBad).dq.fs).dq.depth = 0 ∧
     ((openBQ 1 cfgW (BackedQueue.delete qBad).dq.fs).dq.fs.bad 0).isSome = true ∧
